@@ -76,28 +76,72 @@ META = {
                 "with entries pending", caught_by=["C20"], first_run="caught"),
 }
 
+# second round: fresh sub-agents again, each told where the first-round change was and asked for a different place and kind
+META2 = {
+    "C01": dict(file="bioscrape/simulator.pyx (SafeModelCSimInterface.compute_stochastic_volume_propensities)", needs="safe interface + stochastic volume simulation + volume != 1 + a volume-dependent rate law", caught_by=["C01", "C11"], first_run="caught"),
+    "C02": dict(file="bioscrape/types.pyx (MaxTerm.volume_evaluate)", needs="max() whose second or later argument depends on volume, evaluated on a volume-aware path with V != 1", caught_by=["C02"], first_run="caught"),
+    "C03": dict(file="bioscrape/types.pyx (Model.create_reaction)", needs="a delayed product that also has a non-zero immediate coefficient, is repeated, or is also a delayed reactant", caught_by=["C03"], first_run="caught"),
+    "C04": dict(file="bioscrape/simulator.pyx (SafeModelCSimInterface.calculate_deterministic_derivative)", needs="deterministic + safe interface + a consumed species below its stoichiometric coefficient", caught_by=["C04", "C03"],
+                first_run="missed by C04 (only the plain interface's right-hand side was an obligation); reported by C03", strengthened="C04 runs the right-hand side through the safe interface too and carries C03's symbolic-stoichiometry derivative jobs"),
+    "C05": dict(file="bioscrape/simulator.pyx (SafeModelCSimInterface.compute_stochastic_propensities)", needs="safe + two or more reactions + a lower-index reaction blocked", caught_by=["C05", "C06", "C01"],
+                first_run="missed by C05 (abstract interface); reported by C06 and C01", strengthened="C05 checks what the plain and the safe interface hand to the loop in the stochastic mode (C01's closed forms, one- and two-reaction models)"),
+    "C06": dict(file="bioscrape/types.pyx (MassActionPropensity.get_stochastic_volume_propensity)", needs="volume simulator + mass action of order >= 3 with a repeated reactant + plain interface", caught_by=["C06"], first_run="caught"),
+    "C07": dict(file="bioscrape/simulator.pyx (DelaySSASimulator.delay_simulate)", needs="delay without volume, an event in the run, and the same model or interface used again", caught_by=["C07", "C08"],
+                first_run="missed by C07; C08/C06/C10 found the aliasing but could not replay it (exit 2)", strengthened="replay scenario that runs twice on the same interface / model; C07 carries the init facets of all four loops"),
+    "C08": dict(file="bioscrape/types.pyx (Model._create_vectors)", needs="a model with a rule that is initialised again; a non-idempotent rule shows it", caught_by=["C08"], first_run="caught"),
+    "C09": dict(file="bioscrape/types.pyx (GeneralODERule.rule_volume_operation)", needs="ode rule on a parameter + a volume-aware simulator + dt != 1", caught_by=["C09"], first_run="caught"),
+    "C10": dict(file="bioscrape/simulator.pyx (ArrayDelayQueue.add_reaction)", needs="a delay that rounds to exactly the number of queue slots", caught_by=["C10", "C20"],
+                first_run="missed by C10; reported by C20", strengthened="C10 carries the queue's insertion obligations"),
+    "C11": dict(file="bioscrape/simulator.pyx (VolumeSSASimulator.volume_simulate)", needs="a time grid that starts after the interface's initial time", caught_by=["C11"],
+                first_run="counterexample found, not replayed (every replay grid started at the initial time): exit 2", strengthened="the differential battery has a grid starting after the initial time; the reuse scenario falls through to the battery",
+                note="the sub-agent reported having opened /verif/harness/C11.py once (against instructions) and that it did not use it; kept, flagged"),
+    "C12": dict(file="bioscrape/sbmlutil.py (add_reaction)", needs="a general rate with a unary minus directly in front of a power (-A^2)", caught_by=["C12"],
+                first_run="missed: one general rate in the program set", strengthened="general rates over the whole expression grammar in C12 and C14; this also exposed a genuine defect (log exported as log10), repaired in /repo",
+                note="patch.diff is rebased onto the repaired tree (the original is patch_original_base.diff)"),
+    "C13": dict(file="bioscrape/sbmlutil.py (import_sbml_rules)", needs="two or more rate rules with different formulas", caught_by=["C13"], first_run="caught"),
+    "C14": dict(file="bioscrape/sbmlutil.py (add_reaction)", needs="stochastic export, mass action of order >= 3 with a non-adjacent repeat (A+B+A)", caught_by=["C14"],
+                first_run="missed: reactant lists were generated sorted", strengthened="every ordering of each reactant multiset"),
+    "C15": dict(file="bioscrape/inference.pyx (DeterministicLikelihood.get_log_likelihood)", needs="model with a rule + >= 2 trajectories + differing per-trajectory parameter conditions", caught_by=["C15"],
+                first_run="missed: the whole simulator was abstract", strengthened="cost-rule jobs: only odeint is abstract, the real deterministic simulator and rule application run on a model with a rule; the replay uses parameter conditions that matter"),
+    "C16": dict(file="bioscrape/pid_interfaces.py (StochasticInference.get_likelihood_function)", needs="stochastic interface + log-gaussian prior without the positive flag + value <= 0", caught_by=["C16"],
+                first_run="missed: reals for doubles hid the NaN; wrapper job covered four families", strengthened="numpy.log has IEEE semantics in the interpreter (NaN below 0, -inf at 0, propagated); the wrapper job covers the log families and has a replay"),
+    "C17": dict(file="bioscrape/types.pyx (Model._create_vectors)", needs="initialise, add a reaction, initialise again, then copy", caught_by=["C17"],
+                first_run="missed by C17 (models built at once); C08 found the stale lists, not replayed", strengthened="C17 model-edited jobs (two stages around an initialisation), behaviour obligation with replay"),
+    "C18": dict(file="bioscrape/analysis.py (compute_J)", needs="a state coordinate within two difference steps of zero", caught_by=["C18"], first_run="caught"),
+    "C19": dict(file="bioscrape/simulator.pyx (GeneralVolumeSplitter.partition)", needs="general splitter + partition noise > 0 + a binomially partitioned species", caught_by=["C19"],
+                first_run="counterexample found, not replayed (the replay only checked conservation): exit 2", strengthened="same-stream reference partition in the replay"),
+    "C20": dict(file="bioscrape/simulator.pyx (ArrayDelayQueue.add_reaction)", needs="requested time one slot beyond the horizon", caught_by=["C20"], first_run="caught"),
+}
+
 
 def main():
     results = {}
     rp = "/verif/seeded/results.json"
     if os.path.exists(rp):
         results = json.load(open(rp))
-    for pid, m in sorted(META.items()):
-        src = os.path.join(SRC, pid)
-        dst = os.path.join(DST, pid)
+    rounds = [(META, SRC, DST, ("patch.diff", "demo.py", "notes.md"))]
+    if os.path.isdir("/tmp/seed2_out") or os.path.isdir(os.path.join(DST, "r2")):
+        rounds.append((META2, "/tmp/seed2_out", os.path.join(DST, "r2"), ("patch.diff", "demo.py", "notes.md", "patch_original_base.diff")))
+    for table, src_root, dst_root, files in rounds:
+      for pid, m in sorted(table.items()):
+        src = os.path.join(src_root, pid)
+        dst = os.path.join(dst_root, pid)
         os.makedirs(dst, exist_ok=True)
-        for fn in ("patch.diff", "demo.py", "notes.md"):
+        for fn in files:
             if os.path.exists(os.path.join(src, fn)):
                 shutil.copy(os.path.join(src, fn), os.path.join(dst, fn))
+        key = pid if table is META else "r2/" + pid
         meta = dict(property=pid, changed=m["file"], needs_to_manifest=m["needs"], reported_by_checks=m["caught_by"],
                     first_run=m["first_run"], strengthened=m.get("strengthened", ""),
                     confirmed=["tools/try_seed.sh: (1) `git diff` of the sub-agent's worktree equals patch.diff; (2) the pinned suite run in that worktree: 54 passed; "
                                "(3) demo.py against the changed tree exits 1 and against /repo exits 0; (4) `git -C /repo apply patch.diff`, "
                                "`./vf check <id> --tier quick` for the checks listed, `git -C /repo checkout -- .`"],
-                    trial_output=results.get(pid, []))
+                    trial_output=results.get(key, []))
+        if m.get("note"):
+            meta["note"] = m["note"]
         with open(os.path.join(dst, "meta.json"), "w") as f:
             json.dump(meta, f, indent=1)
-    print("wrote", len(META), "seed directories")
+    print("wrote", sum(len(r[0]) for r in rounds), "seed directories")
 
 
 if __name__ == "__main__":
